@@ -560,7 +560,7 @@ func ruleRequestTx(c *RC) *RuleResult {
 					r.fail(s.Fn.Name+"/missing-delete", c.Prog.Pos(s.Node), "entries of the missing list are deleted outside OnTransaction")
 				}
 			case c.clearedValue(v):
-				if s.Fn == c.A.epochWriter {
+				if c.inEpoch(s.Fn) {
 					r.ok("missing list cleared by the epoch writer")
 				} else {
 					r.fail(s.Fn.Name+"/missing-cleared", c.Prog.Pos(s.Node), "the missing-transaction list is cleared in "+s.Fn.Name+" (outside the epoch writer): requested transactions delivered afterwards are ignored")
